@@ -8,7 +8,7 @@ from harness import universe as U
 C = {c.__name__ if hasattr(c, "__name__") else str(c): i for i, c in enumerate(CLASSES)}
 INT, BOOL, FLOAT, COMPLEX, STR, BYTES, NONE, TUPLE, LIST, SET, FSET, DICT, TYPE = 1, 2, 3, 4, 5, 6, 7, 8, 9, 10, 11, 12, 13
 SEQUENCE, ITERABLE, COLLECTION, CONTAINER, MAPPING, HASHABLE, SIZED, MUTSEQ, ABSSET = 14, 15, 16, 17, 18, 19, 20, 21, 22
-USER = [CID[U.A], CID[U.B], CID[U.Cc], CID[U.D], CID[U.Color], CID[U.IE]]
+USER = [CID[U.A], CID[U.B], CID[U.Cc], CID[U.D], CID[U.Color], CID[U.IE], CID[U.Fl]]
 NT_CLS = [INT, STR, CID[U.A]]
 
 SCALARS = (
